@@ -690,6 +690,11 @@ def main_check(prop_mod, tier, seed, jobs, only=None, verbose=False):
         coverage=dict(
             states=agg["paths"], transitions=agg["decisions"],
             traces_validated_against_impl=agg["witness_ok"],
+            evaluations=agg["obligations"],
+            distinct_nontrivial=sum(1 for r in results if r.get("discharged", 0) > 0 and not r.get("errors")),
+            rule="states = completed symbolic paths, transitions = branch decisions taken by the code under analysis on symbolic "
+                 "conditions; evaluations = obligations sent to z3 (normaliser / nlsat / LRA); distinct_nontrivial = distinct "
+                 "configurations (structural cases) in which at least one obligation was proved and nothing was left undecided",
             samples=samples or [dict(note="no completed path")],
             configurations=len(cfgs),
             configurations_timed_out=sum(1 for r in results if r.get("timeout")),
@@ -710,6 +715,10 @@ def main_check(prop_mod, tier, seed, jobs, only=None, verbose=False):
         wall_s=round(wall, 2),
         violations=len(seen),
     )
+    if ev["coverage"]["transitions"] == 0:
+        # no branch of the code depended on a symbolic value (concrete structure, symbolic data only): the
+        # model-checking keys do not apply; the generic counts above carry the coverage
+        ev["coverage"]["branch_decisions_on_symbolic_values"] = ev["coverage"].pop("transitions")
     if not os.environ.get("SYMX_NO_EVIDENCE"):  # (set by the seeded-change tools: evidence is only written for /repo as it is)
         os.makedirs(os.path.join(VERIF, "evidence"), exist_ok=True)
         with open(os.path.join(VERIF, "evidence", f"{prop.ID}.json"), "w") as f:
